@@ -527,7 +527,7 @@ func (r *Ref) callFunc(spec *FuncSpec, fn reflect.Value, src reflect.Value, T re
 			args[i] = forceIface(src)
 		}
 	}
-	outs := fn.Call(args)
+	outs := callFn(fn, args)
 	if len(outs) == 2 && !outs[1].IsNil() {
 		return reflect.Zero(T), &RefError{Err: outs[1].Interface().(error), Path: path}
 	}
